@@ -28,6 +28,14 @@ def check(tier, seed):
             ps = PK_SRC[(i // 4) % 4]
             sign_lines.append(f"sign {s} {mode} {ss}:{xi.hex()} {hx(m)} {hx(c)} ok:{r.hex()}")
             meta.append((s, mode, ss, ps, xi, m, c, i))
+    # rare events of Algorithm 7 (corpus): exactly omega hints, omega - 1, an empty last / first hint polynomial; all key provenances
+    for s in fam.SETS:
+        for j, (tag, xi, sk, pk, m, c, r) in enumerate(fam.rare_sign_cases(s)):
+            for mode in ('pure', 'shake128'):
+                ss = SK_SRC[j % 2]
+                ps = PK_SRC[(j + (mode == 'pure')) % 4]
+                sign_lines.append(f"sign {s} {mode} {ss}:{xi.hex()} {hx(m)} {hx(c)} ok:{r.hex()}")
+                meta.append((s, mode, ss, ps, xi, m, c, 10 ** 6))
     souts = core.run_stream([core.RUST['fast']], sign_lines)
     cases = []
     for (s, mode, ss, ps, xi, m, c, i), line, o in zip(meta, sign_lines, souts):
